@@ -30,6 +30,24 @@ def setup(d):
     os.mkdir(os.path.join(d, "outf"))                # destination dir where d1 is a FILE
     w("outf/d1", b"i am a file")
     w("file_dest", b"existing file")
+    import socket as _socket
+    import stat as _stat
+    for dd in ("outfifo", "outsock", "outchr", "outlink"):
+        os.mkdir(os.path.join(d, dd))                # destination dirs where d1 is a FIFO / socket / device / link to a file
+    os.mkfifo(os.path.join(d, "outfifo", "d1"))
+    sk = _socket.socket(_socket.AF_UNIX)
+    cwd = os.getcwd()
+    try:
+        os.chdir(os.path.join(d, "outsock"))
+        sk.bind("d1")
+    finally:
+        os.chdir(cwd)
+        sk.close()
+    try:
+        os.mknod(os.path.join(d, "outchr", "d1"), 0o600 | _stat.S_IFCHR, os.makedev(1, 3))
+    except OSError:
+        os.mkfifo(os.path.join(d, "outchr", "d1"))
+    os.symlink("../file_dest", os.path.join(d, "outlink", "d1"))
     os.symlink("a", os.path.join(d, "link_to_a"))
     os.link(os.path.join(d, "a"), os.path.join(d, "hard_a"))
     os.symlink("d1", os.path.join(d, "link_to_d1"))
@@ -85,6 +103,13 @@ def gen(rng, quick):
     cs.append(("dir->file-T", ["-r", "-T", "d1", "file_dest"], True))
     for pos in (0, 1, 2):
         cs.append(("dir->file-inside@%d" % pos, ["-r"] + around("d1", pos) + ["outf"], True))
+    # 5b. ... where the existing non-directory is not a regular file: a FIFO, a socket, a character device, a link to a file
+    for pos in (0, 1, 2):
+        for dd in ("outfifo", "outsock", "outchr", "outlink"):
+            if pos != 1 and dd in ("outsock", "outchr"):
+                continue
+            cs.append(("dir->%s-inside@%d" % (dd[3:], pos), ["-r"] + around("d1", pos) + [dd], True))
+    cs.append(("dir->fifo-tdir", ["-r", "--target-directory", "outfifo", "a", "d1"], True))
     # 6. source identical to (mapped) destination
     cs.append(("same-text", ["a", "a"], True))
     cs.append(("same-dir-text", ["-r", "d1", "d1"], True))
